@@ -384,6 +384,7 @@ pub fn signal_name(sig: i32) -> String {
         libc::SIGFPE => "SIGFPE".into(),
         libc::SIGABRT => "SIGABRT".into(),
         libc::SIGALRM => "watchdog timeout (SIGALRM)".into(),
+        libc::SIGPROF => "watchdog timeout (CPU time, SIGPROF)".into(),
         libc::SIGKILL => "SIGKILL".into(),
         s => format!("signal {s}"),
     }
@@ -413,15 +414,19 @@ impl Ctx {
         self.deadline.saturating_duration_since(Instant::now())
     }
 
-    /// Re-arms the SIGALRM watchdog for the calls that follow.
+    /// Arms a short watchdog for the calls that follow: `secs` of this process's own CPU time (SIGPROF), with a generous
+    /// wall-clock backstop — a loaded machine must not turn a slow case into a "hang".
     pub fn arm_watchdog(&self, secs: u32) {
         unsafe {
-            libc::alarm(secs);
+            cpu_alarm(secs);
         }
     }
 
     pub fn arm_default_watchdog(&self) {
-        self.arm_watchdog(self.watchdog_default);
+        unsafe {
+            cpu_alarm(0);
+            libc::alarm(self.watchdog_default);
+        }
     }
 
     /// Tells the parent this child is alive (it kills children without progress).
@@ -487,7 +492,7 @@ impl Ctx {
                 return Probe::Pass;
             }
             if pid == 0 {
-                libc::alarm(secs);
+                cpu_alarm(secs);
                 let ok = std::panic::catch_unwind(std::panic::AssertUnwindSafe(|| check()));
                 libc::_exit(match ok {
                     Ok(true) => 0,
@@ -716,12 +721,41 @@ struct Running {
     pending: Option<(u64, i32, String)>,
     last_hb: u64,
     last_progress: Instant,
+    /// CPU time (clock ticks) the child had consumed when its heartbeat last advanced; `None` = not sampled yet
+    cpu_at_progress: Option<u64>,
     /// Killed by the parent because the heartbeat stopped.
     stalled: bool,
 }
 
-/// Seconds without a heartbeat after which the parent kills a child (watchdog).
+/// Seconds of the child's own **CPU time** without a heartbeat after which the parent kills it (watchdog). Measured in
+/// CPU time, not wall time: on a loaded machine a child that is merely not being scheduled must not be taken for a hang
+/// (that produced false "watchdog timeout" faults when several checks ran at once).
 pub const STALL_SECS: u64 = 8;
+/// Wall-clock bound for a child that neither advances nor burns CPU (blocked forever)
+pub const STALL_WALL_SECS: u64 = 300;
+
+/// `secs` seconds of CPU time until SIGPROF (0 cancels), plus a wall-clock SIGALRM backstop at `30·secs + 60` s
+pub unsafe fn cpu_alarm(secs: u32) {
+    let it = libc::itimerval {
+        it_interval: libc::timeval { tv_sec: 0, tv_usec: 0 },
+        it_value: libc::timeval { tv_sec: secs as libc::time_t, tv_usec: 0 },
+    };
+    libc::setitimer(libc::ITIMER_PROF, &it, std::ptr::null_mut());
+    if secs > 0 {
+        libc::alarm(secs * 30 + 60);
+    }
+}
+
+/// user + system CPU time of a process in clock ticks (`/proc/<pid>/stat`, fields 14 and 15)
+fn cpu_ticks(pid: i32) -> Option<u64> {
+    let s = std::fs::read_to_string(format!("/proc/{pid}/stat")).ok()?;
+    // the command name may contain spaces: fields are counted after the closing parenthesis
+    let rest = &s[s.rfind(')')? + 1..];
+    let f: Vec<&str> = rest.split_whitespace().collect();
+    let ut: u64 = f.get(11)?.parse().ok()?;
+    let st: u64 = f.get(12)?.parse().ok()?;
+    Some(ut + st)
+}
 
 fn silent_panics() {
     std::panic::set_hook(Box::new(|_| {}));
@@ -801,6 +835,7 @@ pub fn run_jobs(jobs: Vec<Job>, cfg: &RunCfg) -> Partial {
                 pending,
                 last_hb: 0,
                 last_progress: Instant::now(),
+                cpu_at_progress: None,
                 stalled: false,
             }
         }
@@ -860,10 +895,26 @@ pub fn run_jobs(jobs: Vec<Job>, cfg: &RunCfg) -> Partial {
                 if hb != r.last_hb {
                     r.last_hb = hb;
                     r.last_progress = now;
+                    r.cpu_at_progress = None;
                 } else if !r.stalled && now.duration_since(r.last_progress).as_secs() >= STALL_SECS {
-                    r.stalled = true;
-                    unsafe {
-                        libc::kill(r.pid, libc::SIGKILL);
+                    // no heartbeat for a while in wall time: a hang only if the child also burned that much CPU
+                    let ticks_per_sec = unsafe { libc::sysconf(libc::_SC_CLK_TCK) }.max(1) as u64;
+                    let wall = now.duration_since(r.last_progress).as_secs();
+                    let cpu_now = cpu_ticks(r.pid);
+                    let burned = match (r.cpu_at_progress, cpu_now) {
+                        (Some(c0), Some(c1)) => c1.saturating_sub(c0) / ticks_per_sec,
+                        (None, Some(c1)) => {
+                            // first sample after the wall threshold: start counting CPU from here
+                            r.cpu_at_progress = Some(c1);
+                            0
+                        },
+                        _ => 0,
+                    };
+                    if burned >= STALL_SECS || wall >= STALL_WALL_SECS {
+                        r.stalled = true;
+                        unsafe {
+                            libc::kill(r.pid, libc::SIGKILL);
+                        }
                     }
                 }
             }
